@@ -913,6 +913,41 @@ pub mod glue {
         std::mem::forget(ctx);
     }
 
+    pub fn step_remove_unpin(k: usize) {
+        let mut ctx = arbitrary_pool(k);
+        let mut counts = ctx.counts;
+        let i = nd::usize();
+        if i < k && counts[i] > 0 {
+            let idx = nd::usize();
+            nd::assume(idx < GCAP);
+            #[cfg(kani)]
+            let h = {
+                let layout = ctx.pool.folo_verif_slab(i).folo_verif_layout();
+                let addr = ctx.bases[i] + idx * layout.slot_layout().size() + layout.slot_to_object_offset();
+                RawPooled::new(i, SlabHandle::new(idx, std::ptr::NonNull::new(addr as *mut D).unwrap()))
+            };
+            #[cfg(not(kani))]
+            let h = {
+                let pos = ctx.live.iter().position(|(si, _)| *si == i).unwrap();
+                ctx.live.remove(pos).1
+            };
+            // extraction by value: same bookkeeping obligations as remove (length, vacancy index), no destructor run by the pool
+            let val = unsafe { ctx.pool.remove_unpin::<D>(h) };
+            #[cfg(kani)]
+            std::mem::forget(val);
+            #[cfg(not(kani))]
+            drop(val);
+            counts[i] -= 1;
+            check(&ctx, &counts, k);
+            #[cfg(kani)]
+            assert!(dropped() == 0, "remove_unpin: no slab dropped");
+            witness!(counts[i] == GCAP - 1 && lowest_vacant(&counts, k) == Some(i) && i + 1 < k, "full slab gets a vacancy before the cached one");
+            witness!(counts[i] == 0, "slab becomes empty");
+        }
+        witness!(k > 0, "end of the remove_unpin step reachable");
+        std::mem::forget(ctx);
+    }
+
     pub fn step_shrink(k: usize) {
         let mut ctx = arbitrary_pool(k);
         let counts = ctx.counts;
@@ -1139,6 +1174,17 @@ harnesses! {
     fn c01_pool_glue_remove_k1 [unwind 9] { glue::step_remove(1) }
 
     // @verif id=C01,C02 tier=quick timeout=900 mem=12 expect=pass witness=any covers=1
+    // @bounds RawOpaquePool::remove_unpin(solver-chosen slab and slot; extraction by value): ONE operation from an ARBITRARY consistent pool summary with 1 slab(s), per-slab count 0..=3 symbolic; slab operations replaced by their contracts (inductive step)
+    #[cfg_attr(kani, kani::stub(crate::opaque::slab::Slab::new, crate::folo_verif_slab_model::new))]
+    #[cfg_attr(kani, kani::stub(crate::opaque::slab::Slab::insert_with_unchecked, crate::folo_verif_slab_model::insert_with_unchecked))]
+    #[cfg_attr(kani, kani::stub(crate::opaque::slab::Slab::remove, crate::folo_verif_slab_model::remove))]
+    #[cfg_attr(kani, kani::stub(crate::opaque::slab::Slab::remove_unpin, crate::folo_verif_slab_model::remove_unpin))]
+    #[cfg_attr(kani, kani::stub(<crate::opaque::slab::Slab as std::ops::Drop>::drop, crate::folo_verif_slab_model::drop))]
+    #[cfg_attr(kani, kani::stub(std::vec::Vec::resize, vec_resize_model))]
+    #[cfg_attr(kani, kani::stub(std::vec::Vec::reserve, glue::vec_reserve_model))]
+    fn c01_pool_glue_remove_unpin_k1 [unwind 9] { glue::step_remove_unpin(1) }
+
+    // @verif id=C01,C02 tier=quick timeout=900 mem=12 expect=pass witness=any covers=1
     // @bounds RawOpaquePool::shrink_to_fit: ONE operation from an ARBITRARY consistent pool summary with 1 slab(s), per-slab count 0..=3 symbolic; slab operations replaced by their contracts (inductive step)
     #[cfg_attr(kani, kani::stub(crate::opaque::slab::Slab::new, crate::folo_verif_slab_model::new))]
     #[cfg_attr(kani, kani::stub(crate::opaque::slab::Slab::insert_with_unchecked, crate::folo_verif_slab_model::insert_with_unchecked))]
@@ -1179,6 +1225,17 @@ harnesses! {
     fn c01_pool_glue_remove_k2 [unwind 9] { glue::step_remove(2) }
 
     // @verif id=C01,C02 tier=quick timeout=900 mem=12 expect=pass witness=any covers=1
+    // @bounds RawOpaquePool::remove_unpin(solver-chosen slab and slot; extraction by value): ONE operation from an ARBITRARY consistent pool summary with 2 slab(s), per-slab count 0..=3 symbolic; slab operations replaced by their contracts (inductive step)
+    #[cfg_attr(kani, kani::stub(crate::opaque::slab::Slab::new, crate::folo_verif_slab_model::new))]
+    #[cfg_attr(kani, kani::stub(crate::opaque::slab::Slab::insert_with_unchecked, crate::folo_verif_slab_model::insert_with_unchecked))]
+    #[cfg_attr(kani, kani::stub(crate::opaque::slab::Slab::remove, crate::folo_verif_slab_model::remove))]
+    #[cfg_attr(kani, kani::stub(crate::opaque::slab::Slab::remove_unpin, crate::folo_verif_slab_model::remove_unpin))]
+    #[cfg_attr(kani, kani::stub(<crate::opaque::slab::Slab as std::ops::Drop>::drop, crate::folo_verif_slab_model::drop))]
+    #[cfg_attr(kani, kani::stub(std::vec::Vec::resize, vec_resize_model))]
+    #[cfg_attr(kani, kani::stub(std::vec::Vec::reserve, glue::vec_reserve_model))]
+    fn c01_pool_glue_remove_unpin_k2 [unwind 9] { glue::step_remove_unpin(2) }
+
+    // @verif id=C01,C02 tier=quick timeout=900 mem=12 expect=pass witness=any covers=1
     // @bounds RawOpaquePool::shrink_to_fit: ONE operation from an ARBITRARY consistent pool summary with 2 slab(s), per-slab count 0..=3 symbolic; slab operations replaced by their contracts (inductive step)
     #[cfg_attr(kani, kani::stub(crate::opaque::slab::Slab::new, crate::folo_verif_slab_model::new))]
     #[cfg_attr(kani, kani::stub(crate::opaque::slab::Slab::insert_with_unchecked, crate::folo_verif_slab_model::insert_with_unchecked))]
@@ -1217,6 +1274,17 @@ harnesses! {
     #[cfg_attr(kani, kani::stub(std::vec::Vec::resize, vec_resize_model))]
     #[cfg_attr(kani, kani::stub(std::vec::Vec::reserve, glue::vec_reserve_model))]
     fn c01_pool_glue_remove_k3 [unwind 9] { glue::step_remove(3) }
+
+    // @verif id=C01,C02 tier=quick timeout=900 mem=12 expect=pass witness=any covers=1
+    // @bounds RawOpaquePool::remove_unpin(solver-chosen slab and slot; extraction by value): ONE operation from an ARBITRARY consistent pool summary with 3 slab(s), per-slab count 0..=3 symbolic; slab operations replaced by their contracts (inductive step)
+    #[cfg_attr(kani, kani::stub(crate::opaque::slab::Slab::new, crate::folo_verif_slab_model::new))]
+    #[cfg_attr(kani, kani::stub(crate::opaque::slab::Slab::insert_with_unchecked, crate::folo_verif_slab_model::insert_with_unchecked))]
+    #[cfg_attr(kani, kani::stub(crate::opaque::slab::Slab::remove, crate::folo_verif_slab_model::remove))]
+    #[cfg_attr(kani, kani::stub(crate::opaque::slab::Slab::remove_unpin, crate::folo_verif_slab_model::remove_unpin))]
+    #[cfg_attr(kani, kani::stub(<crate::opaque::slab::Slab as std::ops::Drop>::drop, crate::folo_verif_slab_model::drop))]
+    #[cfg_attr(kani, kani::stub(std::vec::Vec::resize, vec_resize_model))]
+    #[cfg_attr(kani, kani::stub(std::vec::Vec::reserve, glue::vec_reserve_model))]
+    fn c01_pool_glue_remove_unpin_k3 [unwind 9] { glue::step_remove_unpin(3) }
 
     // @verif id=C01,C02 tier=quick timeout=900 mem=12 expect=pass witness=any covers=1
     // @bounds RawOpaquePool::shrink_to_fit: ONE operation from an ARBITRARY consistent pool summary with 3 slab(s), per-slab count 0..=3 symbolic; slab operations replaced by their contracts (inductive step)
